@@ -52,7 +52,7 @@ CHECKS = [
     chk("C07", ENGINE + "Every operation is also run through table.NativeBackend from the serialised state and the two "
         "states are compared as JSON; a reflect-based schema pin guards new fields." + PART, BASE_NOTE + "encoding/json is modelled, not verified.",
         "Coq proof over a Gallina model + differential correspondence (in-memory vs JSON-rebuilt vs model)", "DESIGN.md §4 C07, §9"),
-    chk("C08", SEAT + "Reported against known finding F11." + PART, BASE_NOTE,
+    chk("C08", SEAT + "Reported against known finding F11. Proved for every state: positions land on playable seats, and the blinds rule in the state after Next (first playable seat after the dealer / after the small blind; dealer = small blind when two seats could play), which pins F11 down to its shape; the newcomer clause is decided by the scenario oracle." + PART, BASE_NOTE,
         "Coq proof over a Gallina model + complete-graph correspondence for small tables", "DESIGN.md §4 C08, §9"),
     chk("C09", REG + "Proved for every history of the regulator with instruction-following tables (any map iteration order): every living player is in exactly one place, the player total, table count and per-table counts are the real numbers; unknown tables and late registrations are refused without change." + PART,
         BASE_NOTE, "Coq proof over a Gallina model + differential correspondence with the Go code", "DESIGN.md §4 C09, §9"),
